@@ -34,20 +34,23 @@ class Path:
 
 class State:
     """a suspended machine: computing (term, env) when term is not None, else returning value; kont = frames"""
-    __slots__ = ("term", "env", "value", "kont", "pc", "known", "traces", "steps", "uninterp", "approx")
+    __slots__ = ("term", "env", "value", "kont", "pc", "known", "model", "traces", "steps", "uninterp", "approx")
 
-    def __init__(self, term, env, value, kont, pc, known, traces, steps, uninterp, approx):
-        self.term, self.env, self.value, self.kont, self.pc, self.known = term, env, value, kont, pc, known
+    def __init__(self, term, env, value, kont, pc, known, model, traces, steps, uninterp, approx):
+        self.term, self.env, self.value, self.kont, self.pc, self.known, self.model = term, env, value, kont, pc, known, model
         self.traces, self.steps, self.uninterp, self.approx = traces, steps, uninterp, approx
 
 
 class Machine:
-    def __init__(self, semantics="E", max_steps=20000, max_paths=2000, solver_timeout_ms=10000):
+    def __init__(self, semantics="E", max_steps=20000, max_paths=2000, solver_timeout_ms=10000, incremental=False):
+        """incremental=False: every feasibility query goes to a fresh solver loaded with the path condition (in practice far
+        faster and more predictable than one long-lived push/pop solver, whose state degrades); True: push/pop solver."""
         self.sem, self.max_steps, self.max_paths = semantics, max_steps, max_paths
-        self.solver = z3.Solver()
+        self.timeout, self.incremental = solver_timeout_ms, incremental
+        self.solver = z3.SimpleSolver()
         self.solver.set("timeout", solver_timeout_ms)
         self._asserted = []
-        self.stats = {"queries": 0, "solver_s": 0.0, "forks": 0, "steps": 0}
+        self.stats = {"queries": 0, "solver_s": 0.0, "forks": 0, "steps": 0, "model_hits": 0}
 
     # ---------------------------------------------------------------------------------------------------- solver
     def _sync(self, pc):
@@ -63,17 +66,26 @@ class Machine:
             s.add(c)
             a.append(c)
 
-    def _check(self, extra=None):
+    def _check(self, pc, extra=None):
+        """-> (z3 result, model | None) for pc /\ extra"""
         t = time.time()
+        if self.incremental:
+            s = self.solver
+            self._sync(pc)
+            s.push()
+        else:
+            s = z3.SimpleSolver()
+            s.set("timeout", self.timeout)
+            s.add(*pc)
         if extra is not None:
-            self.solver.push()
-            self.solver.add(extra)
-        r = self.solver.check()
-        if extra is not None:
-            self.solver.pop()
+            s.add(extra)
+        r = s.check()
+        model = s.model() if r == z3.sat else None
+        if self.incremental:
+            s.pop()
         self.stats["queries"] += 1
         self.stats["solver_s"] += time.time() - t
-        return r
+        return r, model
 
     @staticmethod
     def _lookup(known, c):
@@ -88,17 +100,17 @@ class Machine:
         kont = None
         for a in reversed(list(args)):
             kont = (K_APPV, a, kont)
-        pc = tuple(assumptions)
-        self._sync(pc)
-        if pc and self._check() == z3.unsat:
-            return []
-        self._paths, self._work = [], [State(term, None, None, kont, pc, {}, (), 0, (), False)]
+        pc, model = tuple(assumptions), None
+        if pc:
+            r, model = self._check(pc)
+            if r == z3.unsat:
+                return []
+        self._paths, self._work = [], [State(term, None, None, kont, pc, {}, model, (), 0, (), False)]
         while self._work:
             st = self._work.pop()
             if len(self._paths) >= self.max_paths:
                 self._finish(st, ("undecided", "path cap"))
                 continue
-            self._sync(st.pc)
             self._exec(st)
         self._sync(())
         return self._paths
@@ -112,37 +124,40 @@ class Machine:
         Feasible alternatives become pending states (explored depth first, in order) or finished error paths."""
         feas, n = [], len(alts)
         for i, (cond, kind, payload) in enumerate(alts):
-            approx = False
+            approx, model = False, st.model
             if cond is not True:
                 cond = z3.simplify(cond)
                 if z3.is_false(cond):
                     continue
-                if z3.is_true(cond):
+                k = True if z3.is_true(cond) else self._lookup(st.known, cond)
+                if k is False:
+                    continue
+                if k is True:
                     cond = True
+                elif model is not None and z3.is_true(model.eval(cond, model_completion=True)):
+                    self.stats["model_hits"] += 1  # the cached model of the path condition already witnesses this alternative
+                elif i == n - 1 and not feas:
+                    model = None  # the last alternative of an exhaustive split needs no query
                 else:
-                    k = self._lookup(st.known, cond)
-                    if k is False:
+                    r, model = self._check(st.pc, cond)
+                    if r == z3.unsat:
                         continue
-                    if k is None and not (i == n - 1 and not feas):  # the last alternative of an exhaustive split is free
-                        r = self._check(cond)
-                        if r == z3.unsat:
-                            continue
-                        approx = r != z3.sat
-            feas.append((cond, kind, payload, approx))
+                    approx = r != z3.sat
+            feas.append((cond, kind, payload, approx, model))
             if cond is True:
                 break
         if len(feas) > 1:
             self.stats["forks"] += 1
         if not feas:
             return self._finish(st, ("undecided", "no feasible alternative (solver gave up earlier?)"))
-        for cond, kind, payload, approx in reversed(feas):
+        for cond, kind, payload, approx, model in reversed(feas):
             pc, known = st.pc, st.known
             if cond is not True:
                 pc, known = pc + (cond,), dict(known)
                 known[cond.get_id()] = True
                 if z3.is_not(cond):
                     known[cond.arg(0).get_id()] = False
-            s2 = State(None, None, None, st.kont, pc, known, st.traces, st.steps, st.uninterp, st.approx or approx)
+            s2 = State(None, None, None, st.kont, pc, known, model, st.traces, st.steps, st.uninterp, st.approx or approx)
             if kind == "err":
                 self._finish(s2, ("error", payload.cls, payload.detail))
                 continue
@@ -329,8 +344,7 @@ class Machine:
             if ctx.uninterp:
                 st.uninterp = st.uninterp + tuple(ctx.uninterp)
             if ctx.facts:
-                st.pc = st.pc + tuple(ctx.facts)
-                self._sync(st.pc)
+                st.pc, st.model = st.pc + tuple(ctx.facts), None
             tr = type(r)
             if tr is list:
                 st.steps, st.kont = steps, kont
